@@ -12,6 +12,11 @@ from .model import nkey
 UNKNOWN = {int: 987654, str: 'zz9'}
 
 
+def guards():
+    from . import findings
+    return findings.open_ids()
+
+
 def window(m, extra=()):
     ids = list(m.instants()) + [x for x in extra if x is not None]
     if not ids:
@@ -90,6 +95,32 @@ def c03(rep):
     return len(exp) + 1
 
 
+def c03_intrinsic(rep, lo, hi):
+    """the clauses of C03 that need no model: canonical form, union == the presence the graph itself
+    reports through has_interaction, both directions equal (used once a run has diverged from the
+    model because of a C01-level defect, so that C03 is still judged on its own terms)"""
+    g = rep.g
+    st, r = call(obs.timelines, g)
+    if st != 'ok':
+        raise Violation('C03.timelines', 'raises', exc_class(r))
+    tls, problems = r
+    if problems:
+        raise Violation('C03.timelines', 'views-disagree', repr(problems[:3]))
+    for k, tl in tls.items():
+        name = sorted(map(repr, k)) if isinstance(k, frozenset) else list(map(repr, k))
+        if not (all(a <= b for a, b in tl) and all(tl[i][1] + 1 < tl[i + 1][0] for i in range(len(tl) - 1))):
+            raise Violation('C03.timelines', 'noncanonical', {'pair': name, 'impl': tl, 'model': None})
+        u, v = (tuple(k) * 2)[:2] if isinstance(k, frozenset) else k
+        cov = set()
+        for a, b in tl:
+            cov |= set(range(a, b + 1))
+        lo2, hi2 = (min(cov | {lo}) - 1, max(cov | {hi}) + 1)
+        seen = {t for t in range(lo2, hi2 + 1) if g.has_interaction(u, v, t)}
+        if seen != cov:
+            raise Violation('C03.timelines', 'union!=presence', {'pair': name, 'impl': tl, 'has_interaction': sorted(seen)})
+    return len(tls) + 1
+
+
 # ------------------------------------------------------------------ C04 ids and counts
 def c04(rep, lo, hi, counts=True):
     g, m = rep.g, rep.m
@@ -162,11 +193,11 @@ def c05(rep):
                                                               'events': ev})
         for a, b in runs:
             if b > a and b + 1 not in minus:
-                if a in exempt:
+                if a in exempt and 'D12a' in guards():
                     rep.guard_hit = 'D12a'
                     continue
                 raise Violation('C05.stream', 'unclosed-run', {'pair': name, 'run': [a, b], 'events': ev})
-        if not exempt:
+        if not (exempt and 'D12a' in guards()):
             # constructive form: replay the events
             pres, open_at = set(), None
             for op, t in sorted(ev, key=lambda x: (x[1], x[0] == '+')):
@@ -189,6 +220,13 @@ def c05(rep):
 # ------------------------------------------------------------------ C08 accumulative mode
 def c08(rep, lo, hi):
     g, m = rep.g, rep.m
+    # read-only queries first: whatever they answer, they must not move the snapshot index (the
+    # upper end of every accumulative presence) - so they are asked before presence is compared
+    call(g.interactions_per_snapshots)
+    for t in (lo, hi, hi + 3):
+        call(g.interactions_per_snapshots, t)
+        call(g.number_of_nodes, t)
+        call(g.size, t)
     n = c01(rep, lo, hi)
     st, r = call(g.temporal_snapshots_ids)
     if st != 'ok' or list(r) != m.instants():
